@@ -368,10 +368,10 @@ using days = duration<int_least32_t, ratio<86400>>;
 using weeks = duration<int_least32_t, ratio<604800>>;
 
 /// Signed integer type of at least 20 bits.
-using months = duration<int_least32_t, ratio<31556952>>;
+using months = duration<int_least32_t, ratio<2629746>>;
 
 /// Signed integer type of at least 17 bits.
-using years = duration<int_least32_t, ratio<2629746>>;
+using years = duration<int_least32_t, ratio<31556952>>;
 
 /// @}
 
